@@ -51,6 +51,25 @@ func genC03(r *Rng) *Plan {
 	p := &Plan{Cfg: cfg, Users: stdUsers, Gen: "spoof"}
 	host := cfg.Routes[0].From
 	p.Steps = append(p.Steps, Step{Op: "login", B: "b1", User: "alice@example.com", Host: host, Target: "/"})
+	if r.Chance(1, 4) {
+		// two signed-in users whose requests overlap, one of them held somewhere inside the proxy's request
+		// handling while the other is served: each request reaches the backend with its own user's identity
+		p.Gen += "+twin"
+		other := r.Pick("bob@example.com", "carol@other.org")
+		if groupsOn {
+			other = "bob@example.com"
+		}
+		p.Steps = append(p.Steps, Step{Op: "login", B: "b2", User: other, Host: host, Target: "/"})
+		for k, m := 0, r.Range(2, 5); k < m; k++ {
+			first, second := "b1", "b2"
+			if r.Chance(1, 2) {
+				first, second = "b2", "b1"
+			}
+			p.Steps = append(p.Steps, Step{Op: "get", B: first, Host: host, Target: r.Pick("/", "/private", "/api?x=1"), Method: r.Pick("GET", "POST"),
+				Pause: &PauseSpec{Ord: r.Pick0(0, 0, 0, 1, 2), K: r.Range(1, 200), Dur: 100 * time.Millisecond},
+				Twin:  &Step{Op: "get", B: second, Host: host, Target: r.Pick("/", "/private", "/api?x=2")}})
+		}
+	}
 	n := r.Steps(3, 15)
 	for i := 0; i < n; i++ {
 		if groupsOn && r.Chance(1, 3) {
